@@ -53,7 +53,7 @@ def worker_init():
 
 def generate(tier, seed):
     rng = np.random.default_rng(6000 + seed)
-    n_eos, n_v = (130, 8) if tier == "quick" else (2500, 10)
+    n_eos, n_v = (150, 8) if tier == "quick" else (2500, 10)
     cases = []
     for i in range(n_eos):
         spec = E.random_spec(rng)
@@ -216,7 +216,7 @@ def run_case(case):
         classes.append("vJ-oracle-no-isolated-root")
 
     # ---------------------------------------------------------- contract on matchings
-    vws, kinds = HY.velocities(rng, hyd, case["nv"], cb)
+    vws, kinds = HY.velocities(rng, hyd, case["nv"], cb, probe)
     for vw, kind in zip(vws, kinds):
         for solver in ("general", "template"):
             if solver == "template":
